@@ -24,7 +24,8 @@ BASE      {"kind":"linear","n":..,"n_actions":..,"n_ctx":..,"n_act":..,"seed":..
           {"kind":"supervised","X":[..],"Y":[..],"label_type":"c"|"m","form":"source"|"xy"}
               form "source" = SupervisedSimulation(ListSource(list(zip(X,Y))), None, label_type)  (re-iterable)
               form "xy"     = Environments.from_supervised(X, Y, label_type=..)  (X, Y given as LISTS)
-OP        ["chunk",{"cache":bool}] ["cache",{}] ["shuffle",{"n":k}|{"seeds":[..]}|{"seed":s}] ["take",{"n":k}]
+OP        ["chunk",{"cache":bool}] ["cache",{}] ["shuffle",{"n":k}|{"seeds":[..]}|{"seed":s}] ["take",{"n":k,"strict":bool}]
+              (strict take on a shorter source leaves an environment WITHOUT interactions)
           ["noise",{"context":[m,s]|None,"action":..,"reward":..,"seed":s|[s..]}] ["binary",{}] ["params",{..}]
           ["logged",{"learners":[LEARNER..],"seed":float}] ["reservoir",{"n":k,"seeds":[..]}] ["batch",{"n":k}]
           ["fault_read",{"at":j,"msg":m}] ["fault_params",{"msg":m}]
@@ -40,7 +41,8 @@ LEARNER   {"kind":"random","seed":s} {"kind":"epsilon","epsilon":e,"seed":s} {"k
 EVALUATOR {"kind":"seq","record":[..],"learn":..,"eval":..,"seed":..}
           {"kind":"rejection","record":[..],"seed":..,"cpct":..}
           {"kind":"fn","name":"rows"|"summary"}
-          {"kind":"tag","tag":t,"stride":k,"seed":..,"fault_after":j|None,"msg":m|None}
+          {"kind":"tag","tag":t,"stride":k,"seed":..,"fault_after":j|None,"msg":m|None,"ragged":bool,"tail":bool}
+              (ragged: rows from the 2nd on carry an extra scalar field; tail: a final summary row, also for an empty environment)
 
 build(desc) returns a `Built`: a *fresh* Experiment plus the fresh component objects and the index triples, so a
 twin of any stateful object is one more build() away, and the same descriptor can be rebuilt in another process.
@@ -104,7 +106,7 @@ def build_evaluator(d):
     if k == "seq":       return SequentialCB(record=list(d.get("record", ["reward", "action", "probability"])), learn=d.get("learn", "on"), eval=d.get("eval", "on"), seed=d.get("seed"))
     if k == "rejection": return RejectionCB(record=list(d.get("record", ["reward"])), cpct=d.get("cpct", .005), seed=d.get("seed"))
     if k == "fn":        return {"rows": comps.eval_fn_rows, "summary": comps.eval_fn_summary}[d["name"]]
-    if k == "tag":       return comps.TagEvaluator(d["tag"], d.get("stride", 1), d.get("seed"), d.get("fault_after"), d.get("msg"))
+    if k == "tag":       return comps.TagEvaluator(d["tag"], d.get("stride", 1), d.get("seed"), d.get("fault_after"), d.get("msg"), d.get("ragged", False), d.get("tail", False))
     raise ValueError(f"unknown evaluator kind {k!r}")
 
 def build_base(b):
@@ -133,7 +135,7 @@ def apply_op(envs, op):
         if "n" in a:      return envs.shuffle(n=a["n"])
         if "seeds" in a:  return envs.shuffle(list(a["seeds"]))
         return envs.shuffle(a.get("seed", 1))
-    if name == "take":    return envs.take(a["n"])
+    if name == "take":    return envs.take(a["n"], strict=a.get("strict", False))
     if name == "batch":   return envs.batch(a["n"])
     if name == "reservoir": return envs.reservoir(a["n"], seeds=list(a.get("seeds", [1])))
     if name == "binary":  return envs.binary()
@@ -321,8 +323,8 @@ class SimMultiprocessor:
     the next pickled item from the shared queue when it is idle, retires after `maxtasksperchild` items and is
     replaced by a fresh worker, keeps its own process-global CobaContext (logger, cacher, store, learning_info),
     and every output travels back pickled. `schedule` (ints, cycled) decides which live worker makes the next step
-    (a step = run until the worker's next output, or until it ends), hence both the item->worker assignment and the
-    arrival order of outputs. With n_processes == 1 and maxtasksperchild == 0 it defers to the real in-process path.
+    (a step = take the next item, or run until the worker's next output, or until it ends), hence both the item->worker assignment and the
+    arrival order of outputs (taking an item and producing its next output are separate steps). With n_processes == 1 and maxtasksperchild == 0 it defers to the real in-process path.
     """
     def __init__(self, filter, n_processes=1, maxtasksperchild=0, read_wait=False, schedule=(), trace=None):
         self._filter, self._n, self._m = filter, n_processes, (maxtasksperchild or None)
@@ -336,6 +338,8 @@ class SimMultiprocessor:
             index, raw = queue.popleft()
             worker.handled += 1
             self.trace.setdefault("assign", []).append((index, worker.number))
+            yield None                       # taking an item and producing from it are separate steps: a worker may sit on an
+                                             # item while others overtake it, so outputs need not arrive in queue order
             item = next(iter(Unpickler().filter([raw])))
             out = worker.filt.filter(item)
             out = out if isinstance(out, Iterator) else [out]
@@ -375,6 +379,8 @@ class SimMultiprocessor:
                     w.ctx[a] = CobaContext.__dict__.get(a)
                     if main[a] is _ABSENT: delattr(CobaContext, a)
                     else: setattr(CobaContext, a, main[a])
+            if status is None and raw is None:
+                continue
             if status is None:
                 self.trace.setdefault("arrival", []).append(w.number)
                 yield pickle.loads(raw)
@@ -513,10 +519,10 @@ def learner_desc(draw, tag, logged=False, allow_corral=True, p_history=0.5, kw_o
     if r < p_history * 100:
         if logged:
             fmt = draw(st.sampled_from(["ap", "pmf", "ap", "pmf", "a"]))
-            return {"kind": "history", "tag": tag, "fmt": fmt, "score": True, "info": draw(st.booleans()), "finish": draw(st.integers(0, 9)) < 4}
+            return {"kind": "history", "tag": tag, "fmt": fmt, "score": True, "info": draw(st.sampled_from([False, False, True, "late", "late"])), "finish": draw(st.integers(0, 9)) < 4}
         fmts = ["ap", "pmf", "a", "ap_kw", "pmf_kw"] if kw_ok else ["ap", "pmf", "a"]
         if batched: fmts = ["ap", "pmf", "ap", "pmf", "a", "ap_kw"] if kw_ok else ["ap", "pmf", "ap", "pmf", "a"]
-        d = {"kind": "history", "tag": tag, "fmt": draw(st.sampled_from(fmts)), "score": draw(st.booleans()), "info": draw(st.booleans())}
+        d = {"kind": "history", "tag": tag, "fmt": draw(st.sampled_from(fmts)), "score": draw(st.booleans()), "info": draw(st.sampled_from([False, False, True, "late", "late"]))}
         if batched: d["batch"] = draw(st.booleans())
         d["finish"] = draw(st.integers(0, 9)) < 4
         return d
@@ -550,7 +556,7 @@ def evaluator_desc(draw, tag, logged=False, kinds=None):
         return {"kind": "rejection", "record": rec, "seed": seed, "cpct": draw(st.sampled_from([.005, 0.0, 0.5]))}
     if k == "fn":
         return {"kind": "fn", "name": draw(st.sampled_from(["rows", "summary"]))}
-    return {"kind": "tag", "tag": tag, "stride": draw(st.integers(1, 4)), "seed": seed}
+    return {"kind": "tag", "tag": tag, "stride": draw(st.integers(1, 4)), "seed": seed, "ragged": draw(st.booleans()), "tail": draw(st.booleans())}
 
 MIN_BATCHED_N = 8     # batched environments: at least one full batch of 6-8 interactions (see group_desc)
 
@@ -611,7 +617,11 @@ def group_desc(draw, gi, max_n, logged=False, unit_only=False, max_fan=3, small=
         ops.append(["logged", {"learners": pols, "seed": draw(st.sampled_from([1.23, 1.23, 2.0, 0.5]))}])
         if draw(st.booleans()) and prefix == "none":
             ops.append(["chunk", {"cache": draw(st.booleans())}])
-    if draw(st.booleans()):
+    r = draw(st.integers(0, 9))
+    if r < 2:
+        # strict take: all or nothing - n beyond the source length leaves an environment without interactions
+        ops.append(["take", {"n": draw(st.integers(min(min_n, max_n), max_n + 6)), "strict": True}])
+    elif r < 6:
         ops.append(["take", {"n": draw(st.integers(min(min_n, max_n), max_n))}])
     if batch:
         # batch sizes above every action count and above 2: for a batch of 2 or of len(actions) rows SafeLearner cannot tell a
@@ -658,6 +668,11 @@ def experiment_desc(draw, max_groups=3, max_n=30, max_triples=12, max_learners=4
             fns.add(v["name"])
         evaluators.append(v)
     n_val = len(evaluators)
+    if any(op[0] == "take" and op[1].get("strict") for g in groups for op in g["ops"]) and draw(st.integers(0, 9)) < 7:
+        # an evaluator that yields a summary row even for an environment without interactions
+        v = draw(st.sampled_from([{"kind": "fn", "name": "summary"}, {"kind": "tag", "tag": f"V{n_val}", "stride": 2, "seed": None, "ragged": False, "tail": True}]))
+        if not (v["kind"] == "fn" and v["name"] in fns):
+            evaluators.append(v); n_val = len(evaluators)
     if logged:
         # kwargs-returning learners cannot be taught off-policy and RejectionCB needs score(): logged learners are built accordingly
         pass
@@ -700,6 +715,15 @@ def desc_classes(desc):
     elif "chunk" in ops: out.append("chunk")
     if "cache" in ops: out.append("cache-prefix")
     if "logged" in ops: out.append("logged-envs")
+    if any(op[0] == "take" and op[1].get("strict") for g in desc["groups"] for op in g["ops"]):
+        def maybe_empty(g):
+            t = [op[1] for op in g["ops"] if op[0] == "take" and op[1].get("strict")]
+            return bool(t) and t[0]["n"] > g["base"].get("n", len(g["base"].get("X", [])))
+        out.append("strict-take:" + ("empty-env" if any(maybe_empty(g) for g in desc["groups"]) else "kept"))
+        if any(maybe_empty(g) and any(op[0] == "chunk" for op in g["ops"]) for g in desc["groups"]): out.append("empty-env-behind-chunk")
+    if any((l["inner"] if l["kind"] == "faulty" else l).get("info") == "late" for l in desc["learners"]): out.append("ragged-rows:learner-info")
+    if any(v.get("ragged") or v.get("tail") for v in desc.get("evaluators", [])): out.append("ragged-rows:evaluator")
+    if any(v.get("tail") or (v["kind"] == "fn" and v["name"] == "summary") for v in desc.get("evaluators", [])): out.append("val-rows-for-empty-env")
     if any((l["inner"] if l["kind"] == "faulty" else l).get("finish") for l in desc["learners"]): out.append("lrn-with-finish-hook")
     nb = sum(any(op[0] == "batch" for op in g["ops"]) for g in desc["groups"])
     if nb: out.append("batched-envs:" + ("all" if nb == len(desc["groups"]) else "some"))
